@@ -358,6 +358,9 @@ fn c18_load_bulk_file() {
     symrt::env::fs::write("/cache/bootstrap_cache.json", text.as_bytes()).unwrap();
     let r = BootstrapCacheStore::load_cache_data(store.config());
     cover("bulk_loaded");
+    if seen[0].seq(seen[1]).and(seen[1].seq(seen[2])).get() {
+        cover("all_three_last_seen_equal");
+    }
     match r {
         Ok(d) => {
             note(format!("max_peers={max_peers} loaded={}", d.peers.len()));
